@@ -56,10 +56,10 @@ def source_text(sp: str, nm: str, ver: int) -> str:
     return f"{sp}/{nm}@{ver}|{{{{ g }}}}|{{{{ eg }}}}"
 
 
-def expected_text(o: dict) -> str:
+def expected_text(o: dict, env_globals: bool = True) -> str:
     # `eg` is an environment global: every render sees it, whatever the cache did
     sp, nm = o["key"]
-    return f"{sp}/{nm}@{o['ver']}|" + ("" if o["glob"] == "g0" else o["glob"]) + "|E"
+    return f"{sp}/{nm}@{o['ver']}|" + ("" if o["glob"] == "g0" else o["glob"]) + ("|E" if env_globals else "|")
 
 
 def make_inner(store: Store, fresh: bool):
@@ -152,8 +152,10 @@ def observe(fn):
         return {"kind": "exc:" + type(e).__name__, "msg": str(e)[:200]}
 
 
-def replay(hist: list[dict], variant: str, cfg: dict, scratch: Path) -> dict | None:
-    """Replay one history; return None if it conforms, else a description."""
+def replay(hist: list[dict], variant: str, cfg: dict, scratch: Path, env_globals: bool = True) -> dict | None:
+    """Replay one history; return None if it conforms, else a description.  With env_globals the
+    Environment has globals of its own (then a caller who passes none still hands the loader a
+    non-empty mapping); without, "no globals" reaches the loader as None."""
     from liquid2 import Environment
 
     keys = [(sp, nm) for sp in cfg["spaces"] for nm in cfg["names"]]
@@ -164,7 +166,7 @@ def replay(hist: list[dict], variant: str, cfg: dict, scratch: Path) -> dict | N
         shutil.rmtree(root, ignore_errors=True)
         root.mkdir(parents=True)
     loader = build_loader(variant, store, cfg, root)
-    env = Environment(loader=loader, globals={"eg": "E"})
+    env = Environment(loader=loader, globals={"eg": "E"} if env_globals else None)
     coros: dict[int, object] = {}
     atomic_async = variant in ("dict", "fs")
     done_async: dict[int, dict] = {}
@@ -242,8 +244,8 @@ def replay(hist: list[dict], variant: str, cfg: dict, scratch: Path) -> dict | N
                 return {"at": i, "clause": "not-completed", "expected": exp, "got": None}
             if got["kind"] != exp["kind"]:
                 return {"at": i, "clause": "outcome", "expected": exp, "got": got}
-            if exp["kind"] == "ok" and got["text"] != expected_text(exp):
-                return {"at": i, "clause": "text", "expected": expected_text(exp), "got": got,
+            if exp["kind"] == "ok" and got["text"] != expected_text(exp, env_globals):
+                return {"at": i, "clause": "text", "expected": expected_text(exp, env_globals), "got": got,
                         "obs": exp}
             if size != exp["size"] and not (atomic_async and op["op"] == "resume"):
                 return {"at": i, "clause": "cache-size", "expected": exp["size"], "got": size}
@@ -286,13 +288,17 @@ def _replay_chunk(args):
     hists, variant, cfg, scratch = args
     out = []
     for h in hists:
-        try:
-            f = replay(h, variant, cfg, Path(scratch))
-        except BaseException as e:  # noqa: BLE001
-            f = {"at": 0, "clause": "harness-exception", "expected": None,
-                 "got": {"kind": "exc:" + type(e).__name__, "msg": str(e)[:300]}}
-        if f:
-            out.append((h, f))
+        # with and without globals on the Environment itself (the in-memory variants: cheap)
+        for eg in ((True, False) if variant in ("mixin", "dict") else (True,)):
+            try:
+                f = replay(h, variant, cfg, Path(scratch), eg)
+            except BaseException as e:  # noqa: BLE001
+                f = {"at": 0, "clause": "harness-exception", "expected": None,
+                     "got": {"kind": "exc:" + type(e).__name__, "msg": str(e)[:300]}}
+            if f:
+                f["env_globals"] = eg
+                out.append((h, f))
+                break
     return out
 
 
@@ -456,7 +462,7 @@ def replay_file(path: str) -> int:
         print("\n".join(rec["trace"]))
         return 1
     SCRATCH.mkdir(parents=True, exist_ok=True)
-    f = replay(rec["history"], rec["variant"], rec["cfg"], SCRATCH)
+    f = replay(rec["history"], rec["variant"], rec["cfg"], SCRATCH, rec.get("failure", {}).get("env_globals", True))
     for i, st in enumerate(rec["history"]):
         print(i, st["op"], "=>", st["obs"])
     if f:
